@@ -21,7 +21,9 @@ fn entry_at(log: &[u8], at: usize) -> String {
     let mut last = 0u8;
     let rd16 = |l: &[u8], i: usize| -> usize { l.get(i).copied().unwrap_or(0) as usize | ((l.get(i + 1).copied().unwrap_or(0) as usize) << 8) };
     let ret_len = |l: &[u8], i: usize| -> usize {
-        if l.get(i).copied() == Some(1) {
+        if l.get(i + 1).copied() == Some(0xfe) {
+            2
+        } else if l.get(i).copied() == Some(1) {
             3 + rd16(l, i + 1)
         } else {
             1
@@ -49,10 +51,11 @@ fn entry_at(log: &[u8], at: usize) -> String {
             }
             10 => 1 + 2 + rd16(log, i + 2) + 2,
             12 => {
+                let r = ret_len(log, i + 1);
                 if log.get(i + 1).copied() == Some(0) {
-                    1 + 2 + rd16(log, i + 2)
+                    r + 2 + rd16(log, i + 1 + r)
                 } else {
-                    ret_len(log, i + 1)
+                    r
                 }
             }
             _ => 0,
